@@ -146,15 +146,124 @@ def monitor(gen: int, script, out, pid0: int) -> list[str]:
     return bad
 
 
+DRAIN = 9
+
+
+def drain_model_compare(gen: int, script, out, pid0: int):
+    """The queue model under back-pressure (coq/sock/Drain.v, extracted case 9) on the same history: sends, clock,
+    pause / resume of the transport from the script; link up / down as the implementation's trace shows them.
+    -> 'skipped' (outside the model) | None (agree) | description of the first difference"""
+    if any(st[0] in ("sendclose", "failw", "close", "subsend", "trunc", "bad", "eof", "frame", "reset") for st in script):
+        return "skipped"
+    cls = sockcorr.cat_classes(gen)
+    ops = [0]
+    send_pids = []          # packet id of every send() in order (a refused send takes one too)
+    next_pid = pid0
+    now = 0
+    up = False
+    per_step = []           # number of model ops per stimulus
+    for st, evs in zip(script, out):
+        n0 = len(ops)
+        k = st[0]
+        if k in ("send", "send2"):
+            for kk, pol in ([(st[1], st[2])] if k == "send" else [(st[1], st[2]), (st[3], st[4])]):
+                if cls[kk] != 0:
+                    return "skipped"
+                r, life = sockrun.policy_params(pol)
+                ops += [1, r, life]
+                send_pids.append(next_pid)
+                next_pid = (next_pid + 1) % 256
+        elif k == "adv":
+            t = [e[1] for e in evs if e[0] == "time"]
+            if not t:
+                return "skipped"
+            ops += [2, t[0] - now]
+            now = t[0]
+        elif k == "bp":
+            ops += [3, 1 if st[1] else 0]
+        elif k == "rst":
+            if up:
+                ops += [5]
+                up = False
+        if any(e[0] == "open" for e in evs):
+            ops += [4]
+            up = True
+        if any(e[0] in ("wfail", "tie", "crash") for e in evs):
+            return "skipped"
+        per_step.append(len(ops) - n0)
+    res = common.run_model([[DRAIN] + ops])[0]
+    if -9 in res:
+        return "skipped"                     # a loop was suspended when the link went down: outside the model
+    # split the model output per op (terminated by 0), then regroup per stimulus
+    groups, cur, i = [], [], 0
+    while i < len(res):
+        tag = res[i]
+        if tag == 0:
+            groups.append(cur)
+            cur = []
+            i += 1
+        elif tag == 2:
+            cur.append(("refused",))
+            i += 1
+        else:
+            cur.append(({1: "accept", 3: "wrote", 4: "drop"}[tag], res[i + 1], res[i + 2]))
+            i += 3
+    acc_pid = {}
+    n_acc = 0
+    sends_seen = 0
+    # walk ops again to know which model op is a send (to map accept ordinals to packet ids)
+    j = 1
+    op_kinds = []
+    while j < len(ops):
+        t = ops[j]
+        op_kinds.append(t)
+        j += {1: 3, 2: 2, 3: 2, 4: 1, 5: 1}[t]
+    if len(op_kinds) != len(groups):
+        return f"model returned {len(groups)} op results for {len(op_kinds)} ops"
+    gi = 0
+    for (st, evs), nops in zip(zip(script, out), per_step):
+        # count ops in this step
+        want_w, want_ref = [], 0
+        consumed = 0
+        while consumed < nops:
+            t = op_kinds[gi]
+            for e in groups[gi]:
+                if e[0] == "accept":
+                    acc_pid[e[1]] = send_pids[sends_seen]
+                elif e[0] == "refused":
+                    want_ref += 1
+                elif e[0] == "wrote":
+                    want_w.append(acc_pid.get(e[1], -1))
+            if t == 1:
+                sends_seen += 1
+            consumed += {1: 3, 2: 2, 3: 2, 4: 1, 5: 1}[t]
+            gi += 1
+        got_w = [e[3] for e in evs if e[0] == "wrote"]
+        got_ref = sum(1 for e in evs if tuple(e) == ("senderr", 3))
+        if got_w != want_w or got_ref != want_ref:
+            return (f"stimulus {list(st)}: implementation wrote packet ids {got_w} (refused {got_ref}), "
+                    f"the queue model {want_w} (refused {want_ref})")
+    return None
+
+
 def run(ck: common.Check, prop: str, tier: str) -> None:
     rng = random.Random(ck.seed * 613 + {"C01": 1, "C02": 2}.get(prop, 3))
     n = 0
+    nmodel_bad = 0
     for gen in (4, 5):
         for script in scripts(rng, 150 if tier == "quick" else 3000):
             pid0, out = sockrun.run_script(gen, script)
             n += 1
             ck.count()
             bad = monitor(gen, script, out, pid0)
+            mdiff = drain_model_compare(gen, script, out, pid0)
+            if mdiff == "skipped":
+                mdiff = None
+                ck.extra["backpressure_outside_queue_model"] = ck.extra.get("backpressure_outside_queue_model", 0) + 1
+            elif mdiff is not None:
+                nmodel_bad += 1
+            else:
+                ck.extra["backpressure_queue_model_agreements"] = ck.extra.get("backpressure_queue_model_agreements", 0) + 1
             if prop == "C16":
                 # expired entries are never transmitted; a send on a closing client is refused and holds nothing
                 bad = [b for b in bad if "lifetime ended" in b or "not-open" in b or "no accepted send produced" in b]
@@ -166,7 +275,14 @@ def run(ck: common.Check, prop: str, tier: str) -> None:
                 ck.violation("; ".join(bad[:3]),
                              {"kind": "socket-script-backpressure", "gen": gen, "script": [list(x) for x in script],
                               "impl_trace": [[list(e) for e in evs] for evs in out], "monitor": bad[:5],
+                              "queue_model_difference": mdiff,
                               "trigger": {"class": "backpressure"},
                               "replay_cmd": f"cd /verif && PYTHONPATH=/repo:/verif /venv/bin/python -m harness.sockrun {gen} '{sockcorr.fmt(script)}'"})
                 break
+            if mdiff is not None and not bad and nmodel_bad <= 2:
+                ck.violation("queue model under back-pressure and implementation disagree",
+                             {"kind": "socket-script-backpressure-model", "gen": gen, "script": [list(x) for x in script],
+                              "impl_trace": [[list(e) for e in evs] for evs in out], "first_difference": mdiff,
+                              "no_longer_checks": "coq/sock/Drain.v (theorems C01/C02/C16 *_backpressure_*) vs AirTouchSocket",
+                              "trigger": {"class": "backpressure-model"}}, found_input=False)
     ck.extra["backpressure_scripts"] = n
